@@ -3,7 +3,7 @@
  * body not verified here).  Frame: only the requested outputs. */
 /*@ clause frame src=assumed */
 __CPROVER_requires(1)
-__CPROVER_assigns((outmask & 0xFF80U & LATITUDE) != 0U: *lat2; (outmask & 0xFF80U & LONGITUDE) != 0U: *lon2; (outmask & 0xFF80U & AZIMUTH) != 0U: *azi2;
-                  (outmask & 0xFF80U & DISTANCE) != 0U: *s12; (outmask & 0xFF80U & REDUCEDLENGTH) != 0U: *m12;
-                  (outmask & 0xFF80U & GEODESICSCALE) != 0U: *M12; (outmask & 0xFF80U & GEODESICSCALE) != 0U: *M21; (outmask & 0xFF80U & AREA) != 0U: *S12)
+__CPROVER_assigns((outmask & 0xFF80U & Geodesic_LATITUDE) != 0U: *lat2; (outmask & 0xFF80U & Geodesic_LONGITUDE) != 0U: *lon2; (outmask & 0xFF80U & Geodesic_AZIMUTH) != 0U: *azi2;
+                  (outmask & 0xFF80U & Geodesic_DISTANCE) != 0U: *s12; (outmask & 0xFF80U & Geodesic_REDUCEDLENGTH) != 0U: *m12;
+                  (outmask & 0xFF80U & Geodesic_GEODESICSCALE) != 0U: *M12; (outmask & 0xFF80U & Geodesic_GEODESICSCALE) != 0U: *M21; (outmask & 0xFF80U & Geodesic_AREA) != 0U: *S12)
 __CPROVER_ensures(1)
